@@ -219,17 +219,33 @@ func lifeEpisode(work string, seed int64, f *fake) event {
 	for i := range cands {
 		cands[i] = refenc.GenKey(rng)
 	}
-	for i := range cands {
-		rwg.Add(1)
-		go func(i int) {
-			defer rwg.Done()
-			reg := refenc.Registration{GCAKey: cands[i].Pub}
-			reg.Sig = refenc.Sign(temp.Priv, reg.SigningBytes())
-			time.Sleep(time.Duration(i*60) * time.Microsecond)
-			regCodes[i], _, _ = post("/api/v1/register-gca", reg.JSON())
-		}(i)
+	regErrs := make([]string, len(cands))
+	for attempt := 0; attempt < 2; attempt++ {
+		for i := range cands {
+			rwg.Add(1)
+			go func(i int) {
+				defer rwg.Done()
+				reg := refenc.Registration{GCAKey: cands[i].Pub}
+				reg.Sig = refenc.Sign(temp.Priv, reg.SigningBytes())
+				time.Sleep(time.Duration(i*60) * time.Microsecond)
+				var err error
+				if regCodes[i], _, err = post("/api/v1/register-gca", reg.JSON()); err != nil {
+					regErrs[i] = err.Error()
+				}
+			}(i)
+		}
+		rwg.Wait()
+		anyAnswer := false
+		for _, c := range regCodes {
+			anyAnswer = anyAnswer || c != 0
+		}
+		// every request failed at transport level (starved machine) and the server is still
+		// unregistered: nothing has happened yet, the slice is repeated once
+		if anyAnswer || s.VerifSnapshot(false).GCAAvailable {
+			break
+		}
+		l.counts["c07_registration_slice_repeated"]++
 	}
-	rwg.Wait()
 	winner := -1
 	n200 := 0
 	for i, c := range regCodes {
@@ -240,7 +256,7 @@ func lifeEpisode(work string, seed int64, f *fake) event {
 	}
 	if n200 != 1 {
 		if n200 == 0 {
-			fatal("no registration was accepted: %v", regCodes)
+			fatal("no registration was accepted: %v %v", regCodes, regErrs)
 		}
 		l.bad("C07:more-than-one-registration-accepted: %d of %d concurrent registrations with different keys were answered 200: %v", n200, len(cands), regCodes)
 	}
